@@ -75,6 +75,15 @@ CHECKS = {
              "dictionary and lays out the first block's cards, which are compared byte for byte with the file; files are re-read with an "
              "independent parser, the library readers under every listing permutation, and blimpy.",
         design="3/C04", technique="Coq proof (parse-emit round trip by induction, dictionary lemmas, nat div/mod) + byte-level header correspondence"),
+    "C07": dict(
+        text="Theorems over exact rationals: the reader-side formula OBSFREQ - OBSBW/2 + (j+1/2)*CHAN_BW applied to the written header gives "
+             "fch1 + (start_chan+j)*chan_bw for either sign of chan_bw and any first channel; get_raw_params recovers fch1 and chan_bw; the "
+             "sign of CHAN_BW is the orientation; fftshift + concatenation makes the fine-bin label affine with slope chan_bw/L and equal to "
+             "coarse centre + bin offset; chirp instantaneous frequency = f_start - fch1 + drift*t (negated descending). Header cards and "
+             "get_raw_params are compared with the rational model; reducer output shape with the model. PARTIAL: that a sampled tone peaks "
+             "in the bin the DFT assigns is a DSP fact validated by recording tones/chirps and locating them with the file's own header "
+             "(library reducer and an independent one), not proved.",
+        design="3/C07", technique="Coq field-arithmetic proof over Q (registration algebra) + end-to-end tone location (exploration for the spectral-peak fact)"),
 }
 
 PENDING_REASON = "check not built yet in this session (planned in DESIGN.md section 3); no claim is made for it in this commit"
